@@ -76,6 +76,18 @@ def run_program(env, mon, shape, sorts, Interrupt, initial_time=0, delays=None, 
                         o.void = True
                     else:
                         ev.callbacks.append(mon.probe(o))
+                elif op == 'Y':
+                    # an empty condition is met at once: an ordinary event triggered now
+                    ev = env.all_of([]) if ins[1] else env.any_of([])
+                    o = mon.trig('emptycond%d' % pi, env.now, 1)
+                    if bare:
+                        waiting_for = o
+                        yield ev
+                        waiting_for = None
+                        mon.seen(o)
+                    else:
+                        ev.callbacks.append(mon.probe(o))
+                        yield ev
                 elif op == 'S':
                     spawn(ins[1])
                 elif op == 'I':
@@ -210,6 +222,8 @@ def h_negdelay(cfg):
 HARNESSES = {'prog': h_prog, 'negdelay': h_negdelay}
 
 U_SHAPES = [
+    {'top': 2, 'scripts': [[['T'], ['E', 0], ['Y', 1], ['T']], [['W', 0], ['T']]]},
+    {'top': 3, 'scripts': [[['T'], ['Y', 0]], [['T'], ['T']], [['T'], ['E', 0]]]},
     {'top': 1, 'scripts': [[['U'], ['T']]]},
     {'top': 2, 'scripts': [[['T'], ['U']], [['T']]]},
     {'top': 2, 'scripts': [[['U'], ['U']], [['T'], ['T']]]},
